@@ -729,6 +729,12 @@ func (v *FnVC) evalCall(e *ECall, env *Env) Term {
 			ref = fmt.Sprintf("(sarr %s)", a.S)
 		}
 		return boolT(fmt.Sprintf("(>= %s %s)", ref, pre.S))
+	case "refOf": // identity of the object behind an interface value / pointer
+		a := v.evalTerm(e.Args[0], env)
+		if a.Sort == "Iface" {
+			return intT(fmt.Sprintf("(ival %s)", a.S))
+		}
+		return intT(a.S)
 	case "elemsOf": // contents of a slice as an array indexed from 0 (slices have offset 0 in the model)
 		a := v.evalTerm(e.Args[0], env)
 		sl, ok := a.T.Underlying().(*types.Slice)
@@ -741,10 +747,14 @@ func (v *FnVC) evalCall(e *ECall, env *Env) Term {
 		c := v.evalTerm(e.Args[0], env)
 		k := v.regKey("CH:len", "(Array Int Int)")
 		return intT(fmt.Sprintf("(select %s %s)", v.heapGet(env.st, k), c.S))
+	case "chanFired":
+		c := v.evalTerm(e.Args[0], env)
+		v.S.declFun("chan_fired", "(Int) Bool")
+		return boolT(fmt.Sprintf("(chan_fired %s)", c.S))
 	case "chancap":
 		c := v.evalTerm(e.Args[0], env)
 		v.S.declFun("chan_cap", "(Int) Int")
-		return intT(fmt.Sprintf("(chan_cap %s)", c.S))
+		return intT(fmt.Sprintf("(ite (= %s 0) 0 (chan_cap %s))", c.S, c.S))
 	case "iterpos": // position/visited-set of the range iterator of the current loop
 		if t, ok := env.vars["$pos"]; ok {
 			return t
@@ -969,7 +979,13 @@ func (v *FnVC) emitAxioms() {
 			changed = true
 			v.assumedCallees["axiom "+ax.Name+": "+ax.Text] = true
 			env := &Env{v: v, vars: map[string]Term{}, st: v.entry, old: v.entry, pkg: v.W.PkgTypes(ax.Pkg)}
-			f := v.evalBool(ax.E, env)
+			f, ok := v.tryEvalBool(ax.E, env)
+			if !ok {
+				// mentions an unexported name of a package that is only present as export data in this run:
+				// the axiom is about state this function cannot touch
+				delete(v.assumedCallees, "axiom "+ax.Name+": "+ax.Text)
+				continue
+			}
 			v.asserts = append(v.asserts, f)
 		}
 	}
